@@ -28,10 +28,10 @@ pub struct WorldKnobs {
 }
 
 impl WorldKnobs {
-    /// quick: 40 schemas × 2 datasets × 10 queries; thorough: 15× as many schemas.
+    /// quick: 40 schemas × 2 datasets × 10 queries; thorough: 10× as many schemas.
     pub fn for_tier(tier: Tier) -> WorldKnobs {
         WorldKnobs {
-            n_schemas: if tier == Tier::Quick { 40 } else { 600 },
+            n_schemas: if tier == Tier::Quick { 40 } else { 400 },
             n_datasets: 2,
             n_queries: 10,
             schema: SchemaKnobs::default(),
